@@ -546,9 +546,31 @@ CORE = ['metric(N1,1)', 'metric(N1,2)', 'alert-cond(on)', 'component(vmd0,on)', 
         'update-cond-signaled', 'update-alert-source', 'update-context-descr']
 
 
+class _Abort(Exception):
+    pass
+
+
+def aborted(name):
+    """The event `name`, but its transaction is aborted at the last moment (a pre-commit handler raises): everything the
+    transaction body did - including version bookkeeping for re-created handles - must be without effect."""
+    def ev(p):
+        def handler(mdib, tr):  # noqa: ARG001
+            raise _Abort
+        p.mdib.pre_commit_handler = handler
+        try:
+            EVENT_BY_NAME[name](p)
+        except _Abort:
+            pass
+        finally:
+            p.mdib.pre_commit_handler = None
+    return ev
+
+
 def apply(provider, name):
     """Run one event; returns 'ok' or 'disabled'."""
     try:
+        if name.startswith('abort[') and name not in EVENT_BY_NAME:
+            EVENT_BY_NAME[name] = aborted(name[6:-1])
         EVENT_BY_NAME[name](provider)
     except Disabled:
         return 'disabled'
